@@ -212,6 +212,15 @@ def scenarios(tier: str) -> List[Dict[str, Any]]:
                     out.append({"A": 2, "P": 1, "N": None, "stream": "finite", "stop": False, "level": lvl,
                                 "propagate": True, "ack_type": "when_saved", "deps": deps,
                                 "msgs": [_msg("return" if o1 == "fail" else o1, "sync"), _msg("return" if o2 == "fail" else o2, "sync")]})
+    # shutdown: stop requested and wait_tasks_timeout elapsing while an execution with opened dependencies
+    # is still running; whatever the worker does with that execution, an opened dependency that has not been
+    # finalised when listen() returns must not have been abandoned by the receiver (it may still be running)
+    for shape in ("chain2", "2flat"):
+        k = len(SHAPES[shape][1])
+        for styles in (("gen",) * k, ("agen", "cm")[:k], ("acm", "gen")[:k]):
+            out.append({"A": 2, "P": 0, "N": None, "W": 0.3, "stream": "infinite", "stop": True, "level": 0,
+                        "propagate": True, "ack_type": "when_saved", "deps": _deps(shape, styles),
+                        "msgs": [dict(_msg("return", "sync"), body="gated", outcome="never")]})
     return out
 
 
